@@ -1,7 +1,16 @@
 import PGA.Drv.Util
+import PGA.Drv.MolJson
 import PGA.Model.Scheme
+import PGA.Model.Decompose
+import PGA.Spec.SchemeGuards
+/-! Driver ops of C02 (shared by C03/C04).
+`c02.descriptors` / `c02.assign`: the decomposition logic above the matcher on supplied match lists.
+`c02.full_batch` `{scheme: {centres: [{center, periph, ast}], descs: [{name, ast}], remaps}, mols: [graph…]}`:
+the end-to-end model `PGA.Decompose.decompose` on raw graphs — the scheme's trees are read once per
+request, every graph is Benson-aromatised, matched by the model matcher and decomposed.  Reply
+`{res: [r…]}` (or `{loaderr: class}`) with `r = {ok | err, atoms, maxraw, wf, bonded, arom, kinds}`. -/
 namespace PGA.Drv.C02
-open Lean PGA.Drv PGA.Scheme
+open Lean PGA PGA.Drv PGA.Scheme
 
 def natList (j : Json) : Except String (List Nat) := do
   let a ← j.getArr?
@@ -34,8 +43,53 @@ def input (j : Json) : Except String Input := do
   let rs ← (← arr j "remaps").toList.mapM remap
   pure ⟨n, nb, cs, ds, rs⟩
 
+def kindName : BondKind → String
+  | .single => "single" | .double => "double" | .triple => "triple" | .quadruple => "quadruple"
+  | .aromatic => "aromatic" | .zero => "zero" | .dative => "dative" | .other => "other" | .misc => "misc"
+
+def readErrName : ReadErr → String
+  | .reader => "reader" | .notImplemented => "notImplemented" | .shape => "shape" | .internal => "internal"
+
+def schemeSrc (j : Json) : Except String Decompose.SchemeSrc := do
+  let cs ← (← arr j "centres").toList.mapM fun c => do
+    pure (← str c "center", ← str c "periph", ← astOfJson (← c.getObjVal? "ast"))
+  let ds ← (← arr j "descs").toList.mapM fun d => do
+    pure (← str d "name", ← astOfJson (← d.getObjVal? "ast"))
+  let rs ← (← arr j "remaps").toList.mapM remap
+  pure ⟨cs, ds, rs⟩
+
+def assignJson (inp : Input) : Json :=
+  match assignCentres inp with
+  | .error .patternMatch => Json.null
+  | .ok a => Json.arr ((List.range inp.n).map fun i =>
+      match a.get? i with
+      | some (c, p) => Json.arr #[Json.str c, Json.str p, match groupName a inp.nbrs i with | some g => Json.str g | none => Json.str "none"]
+      | none => Json.null).toArray
+
+/-- one molecule of `c02.full_batch`.  The candidate lists are enumerated once and handed to
+`toInputOfRaws`, which is `toInput` (`PGA.Decompose.toInputOfRaws_eq`), so the value reported is `decompose S m`. -/
+def fullOne (S : Decompose.SchemeDef) (m : Mol) : Json :=
+  let m' := aromatizeBenson m
+  let rawC := S.centres.map fun c => Match.rawMatches c.q m'
+  let rawD := S.descs.map fun d => Match.rawMatches d.q m'
+  let inp := Decompose.toInputOfRaws S m' rawC rawD
+  let maxraw := ((rawC ++ rawD).map List.length).foldl max 0
+  let res : List (String × Json) := match getDescriptors inp with
+    | .error .patternMatch => [("err", "patternMatch")]
+    | .ok c => [("ok", Json.arr (c.map fun p => Json.arr #[Json.str p.1, jrat p.2]).toArray)]
+  Json.mkObj (res ++ [("atoms", assignJson inp), ("maxraw", maxraw), ("wf", m.wf), ("bonded", m.ringsBonded),
+    ("arom", Json.arr (m'.atoms.map fun a => Json.num (if a.aromatic then 1 else 0 : Nat)).toArray),
+    ("kinds", Json.arr (m'.bonds.map fun e => Json.str (kindName e.kind)).toArray)])
+
 def handle (op : String) (j : Json) : Option (Except String Json) :=
   match op with
+  | "c02.full_batch" => some do
+      let src ← schemeSrc (← j.getObjVal? "scheme")
+      let mols ← (← arr j "mols").toList.mapM molOfJson
+      match src.load with
+      | .error e => pure <| Json.mkObj [("loaderr", readErrName e)]
+      | .ok S => pure <| Json.mkObj [("res", Json.arr (mols.map (fullOne S)).toArray),
+          ("schemewf", S.wf), ("nostar", S.noStar), ("nomolprefix", S.noMolPrefix), ("connected", S.connected)]
   | "c02.descriptors" => some do
       let inp ← input j
       match getDescriptors inp with
